@@ -216,6 +216,39 @@ theorem value_revealed (H : List UInt8 → List UInt8) (hH : H32 H) (valueBits :
               exact (specPrune_hash0 H hH _ root [] hp c1).1
 
 
+/-- **`ProveKeyInHashmap` does not panic** on supported trees whose cells have zero or at least two refs (leaves and
+forks of a dictionary): for every key, of any width. (On a cell with exactly one ref the walk can index
+`cursor.Ref(1)` out of range — `walk` models that panic; it is outside the dictionaries the property quantifies over.) -/
+theorem prove_no_panic (H : List UInt8 → List UInt8) (hH : H32 H) (valueBits : Nat) (root : Cell) (key : List Bool)
+    (hp : plain root = true) (hns : noSingleRef root = true) :
+    (proveKey H valueBits root key).isPanic = false := by
+  have hws := wfExotic_wfSizes _ (plain_wfExotic _ hp)
+  have g := good_cell H root hws
+  simp only [proveKey]
+  cases hd : Spec.tooDeep root with
+  | true => rw [g.2 hd]; rfl
+  | false =>
+    obtain ⟨info, e, _⟩ := g.1 hd
+    rw [e]
+    simp only [Outcome.bind_ok]
+    have hw := walk_no_panic key.length (key.length + 2) key.length root [] key [] [] hns
+    cases hwk : walk key.length (key.length + 2) key.length root [] key [] [] with
+    | err x => rfl
+    | panic x => rw [hwk] at hw; cases hw
+    | ok w =>
+      simp only [Outcome.bind_ok]
+      split
+      · rfl
+      · split
+        · rfl
+        · split
+          · rfl
+          · have hc := (prune_total H hH (fun p => w.pruned.contains p) root hp).1
+            cases hcp : createProof H (fun p => w.pruned.contains p) root with
+            | ok pr => rfl
+            | err x => rfl
+            | panic x => rw [hcp] at hc; cases hc
+
 /-! ### non-vacuity: the hypotheses are satisfiable by a non-trivial value (tests on literals, not proofs of the
 property) -/
 
@@ -234,7 +267,7 @@ def exDict : Cell :=
       (leaf ([false, false] ++ Bits.natToBits 8 0x22)))
     (leaf ([true, true, false, true, true, true] ++ Bits.natToBits 8 0x33))
 
-example : plain exDict = true ∧ Spec.tooDeep exDict = false := by decide +kernel
+example : plain exDict = true ∧ Spec.tooDeep exDict = false ∧ noSingleRef exDict = true := by decide +kernel
 example : (dictLookup 10 8 exDict (Bits.natToBits 8 0x01)).map (·.1) = some (Bits.natToBits 8 0x22) := by decide +kernel
 example : (dictLookup 10 8 exDict (Bits.natToBits 8 0x80)).map (·.1) = some (Bits.natToBits 8 0x33) := by decide +kernel
 example : (dictLookup 10 8 exDict (Bits.natToBits 8 0x02)).isNone = true := by decide +kernel
